@@ -218,13 +218,22 @@ func newValCtxVia(powers []int64, via int) (*valCtx, string) {
 		set := types.NewValidatorSet(vals)
 		set.TotalVotingPower()
 		set = set.Copy()
+		how := "updated"
+		if (sel/8)%2 == 1 && n < maxVals {
+			// an addition and a removal in the same block come first (both forget the cached
+			// total), so the updates start from a set whose total is not computed
+			extra := &types.Validator{Address: append([]byte{}, keys[n].addr...), PubKey: keys[n].pub, VotingPower: int64(1 + sel%1000), IsCA: true}
+			set.Add(extra)
+			set.Remove(extra.Address)
+			how = "added-removed-updated"
+		}
 		for i := range vals {
 			if vals[i].VotingPower != powers[i] {
 				set.Update(mk(i, powers[i]))
 			}
 		}
 		vc.set = set
-		return vc, "updated"
+		return vc, how
 	case 2:
 		if n < 2 {
 			return vc, "direct"
